@@ -963,18 +963,17 @@ func (bc *BlockChain) WriteBlockWithState(block *types.Block, receipts []*types.
 
 		if current := block.NumberU64(); current > triesInMemory {
 			// Find the next state trie we need to commit
+			// The canonical chain may end below that height: this is then a block
+			// of a long but lighter side branch and there is nothing to flush.
 			header := bc.GetHeaderByNumber(current - triesInMemory)
-			if header == nil {
-				return NonStatTy, errors.New("header nil")
-			}
-			chosen := header.Number.Uint64()
+			chosen := current - triesInMemory
 			// Only write to disk if we exceeded our memory allowance *and* also have at
 			// least a given number of tries gapped.
 			var (
 				size  = triedb.Size()
 				limit = common.StorageSize(bc.cacheConfig.TrieNodeLimit) * 1024 * 1024
 			)
-			if size > limit || bc.gcproc > bc.cacheConfig.TrieTimeLimit {
+			if header != nil && (size > limit || bc.gcproc > bc.cacheConfig.TrieTimeLimit) {
 				// If we're exceeding limits but haven't reached a large enough memory gap,
 				// warn the user that the system is becoming unstable.
 				if chosen < lastWrite+triesInMemory {
